@@ -160,6 +160,12 @@ Example C02_regression_stray_bound_output : refused cfw genesis [] m2.
 Proof. exact stray_bound_refused. Qed.
 Example C02_regression_spv_spends_bound_slip : refused cfw genesis [n2] q3.
 Proof. exact spv_bound_refused. Qed.
+Example C02_regression_payout_product_saturates :
+  match atr_group (M64 true) (pay 1 1 [] []) 2 10 atr0 (GSingle (mkSlip 1 9223372036854775813 SNormal 1 0 0)) with
+  | Ok a => a_payout a = 9223372036854775802 /\ map (fun t => map s_amt (t_to t)) (a_rbs a) = [[18446744073709551605]]
+  | _ => False
+  end.
+Proof. exact payout_product_saturates. Qed.
 Example C02_regression_payout_multiplier :
   accepted_conserving cfw hg [hb2; hb3; hb4; hb5; hb6; hb7] hb8 /\
   atr_mult 3 (the_input cfw h7 hb8) = 2 /\
